@@ -13,8 +13,13 @@ generator of the object it is called on (so saving twice numbers the authors dif
 -/
 namespace ScnVerif.Cif
 
+/-- decimal digits, most significant first (`fuel` ≥ number of digits) -/
+def natDigits : Nat → Nat → Str
+  | 0, _ => []
+  | fuel + 1, n => if n < 10 then [48 + n] else natDigits fuel (n / 10) ++ [48 + n % 10]
+
 /-- `str(i)` for a natural number -/
-def natStr (n : Nat) : Str := (Nat.toDigits 10 n).map Char.toNat
+def natStr (n : Nat) : Str := natDigits (n + 1) n
 
 /-- `metadata.Person` as far as the writer reads it; a field that is `None` or `''` is `[]`
 (`getattr(a, key) or ''`, `if val`) -/
@@ -202,8 +207,9 @@ structure PowderData where
 
 def suffixSu (k : Str) : Str := k ++ ofString "_su"
 
-/-- `_make_reduced_powder_loop` -/
-def reducedPowderLoop (k : Consts) (d : PowderData) (comment : Str) : Except BuildErr Loop := do
+/-- `_reduced_powder_coord` (name and unit check of the coordinate) and
+`_normalize_reduced_powder_name`: the tag of the coordinate column and of the intensity column -/
+def powderNames (d : PowderData) : Except BuildErr (Str × Str) := do
   let (coordName, unit) ←
     if d.dim = ofString "tof" then pure (ofString "pd_meas.time_of_flight", ofString "µs")
     else if d.dim = ofString "dspacing" then pure (ofString "pd_proc.d_spacing", ofString "Å")
@@ -212,17 +218,28 @@ def reducedPowderLoop (k : Consts) (d : PowderData) (comment : Str) : Except Bui
   let name := if d.name.isEmpty then ofString "intensity_norm" else d.name
   if !(name = ofString "intensity_net" || name = ofString "intensity_norm"
         || name = ofString "intensity_total") then throw BuildErr.value
-  let dataName := ofString "pd_proc." ++ name
-  let cols : List (Str × List Str) :=
-    [(ofString "pd_data.point_id", d.pointIds), (coordName, d.coord)]
+  pure (coordName, ofString "pd_proc." ++ name)
+
+/-- the columns of the reduced-powder loop, in order: point ids, the coordinate, its standard
+uncertainties `sc.stddevs(coord)` (iff the coordinate has variances) under the coordinate's tag +
+`_su`, the intensities, their standard uncertainties `sc.stddevs(data.data)` (iff the data have
+variances) under the intensity tag + `_su` -/
+def powderColumns (coordName dataName : Str) (d : PowderData) : List (Str × List Str) :=
+  [(ofString "pd_data.point_id", d.pointIds), (coordName, d.coord)]
     ++ (match d.coordSu with | some su => [(suffixSu coordName, su)] | none => [])
     ++ [(dataName, d.values)]
     ++ (match d.valuesSu with | some su => [(suffixSu dataName, su)] | none => [])
-  let comment :=
-    if d.dataUnitIsOne then comment
-    else (if (encodeNonAscii comment).isEmpty then [] else comment ++ [10])
-          ++ ofString "Unit of intensity: [" ++ d.dataUnit ++ ofString "]"
-  pure ⟨comment, cols, some [k.pd]⟩
+
+/-- `res.comment = f'{pre}Unit of intensity: [{data.unit}]'` unless the unit is `one` -/
+def powderComment (d : PowderData) (comment : Str) : Str :=
+  if d.dataUnitIsOne then comment
+  else (if (encodeNonAscii comment).isEmpty then [] else comment ++ [10])
+        ++ ofString "Unit of intensity: [" ++ d.dataUnit ++ ofString "]"
+
+/-- `_make_reduced_powder_loop` -/
+def reducedPowderLoop (k : Consts) (d : PowderData) (comment : Str) : Except BuildErr Loop := do
+  let (coordName, dataName) ← powderNames d
+  pure ⟨powderComment d comment, powderColumns coordName dataName d, some [k.pd]⟩
 
 def Builder.withReducedPowderData (k : Consts) (b : Builder) (d : PowderData) (comment : Str) :
     Except BuildErr Builder := do
@@ -253,5 +270,36 @@ def calibrationLoop (k : Consts) (powers coeffs : List Str) (su : Option (List S
 def Builder.withPowderCalibration (k : Consts) (b : Builder) (powers coeffs : List Str)
     (su : Option (List Str)) (comment : Str) : Builder :=
   { b.copy with content := b.content ++ [.loop (calibrationLoop k powers coeffs su comment)] }
+
+/-! ### sequences of builder calls
+
+Every builder object is reached from `CIF(name, comment=…)` by a chain of calls; `with_*` and `copy`
+return a new object (fresh id generator), the setters and `save` act on the object itself.  A call that
+raises (`with_reduced_powder_data` on unsuitable data) leaves the object as it was. -/
+
+inductive Call
+  | withAuthors (authors : List Person)
+  | withReducers (reducers : List Str)
+  | withBeamline (name : Str) (facility : Option Str) (source : Option SourceType) (comment : Str)
+  | withReducedPowderData (d : PowderData) (comment : Str)
+  | withPowderCalibration (powers coeffs : List Str) (su : Option (List Str)) (comment : Str)
+  | copy
+  | setName (name : Str)
+  | setComment (comment : Str)
+  | save (date : Str) (perm : List Nat)
+  deriving Repr
+
+def Builder.apply (k : Consts) (b : Builder) : Call → Builder
+  | .withAuthors ps => b.withAuthors ps
+  | .withReducers rs => b.withReducers rs
+  | .withBeamline n f s c => b.withBeamline k n f s c
+  | .withReducedPowderData d c => match b.withReducedPowderData k d c with
+      | .ok nb => nb
+      | .error _ => b
+  | .withPowderCalibration p c su cm => b.withPowderCalibration k p c su cm
+  | .copy => b.copy
+  | .setName n => { b with name := n }
+  | .setComment c => { b with comment := c }
+  | .save date perm => (b.save Variant.current k date perm).2
 
 end ScnVerif.Cif
